@@ -252,7 +252,9 @@ func isAbsoluteStep(step jparse.Node, outermost bool) bool {
 	case *jparse.PredicateNode:
 		return isAbsoluteStep(step.Expr, false)
 	case *jparse.SortNode:
-		return isAbsoluteStep(step.Expr, false)
+		// An order-by applies to the whole sequence selected
+		// by the steps before it, which are part of the node.
+		return true
 	case *jparse.PathNode:
 		// The sequence of an order-by can itself be a path
 		// that starts with a variable, e.g. $v.items^(k).
